@@ -223,8 +223,10 @@ def run_driver(bindir, scs, wd, name="wsq"):
             f.write(json.dumps({"ev": "end", "scenario": sid, "seq": 0, "th": 999}) + "\n")
         start = sid  # ids are 1-based: restart with the scenario after the dead one
         restarts += 1
-        if restarts > 200:
-            raise ToolError("driver keeps dying; giving up after 200 restarts")
+        if restarts > 100:
+            # every death is already in the trace as data; do not spend the time budget on hundreds more
+            log("NOTE the driver died in more than 100 scenarios: the remaining %d scenarios are skipped" % (len(scs) - start))
+            break
     return tpath
 
 
